@@ -25,6 +25,12 @@ from pymablock.series import zero, one  # noqa: E402
 
 failures = []
 cases = 0
+import os  # noqa: E402
+THOROUGH = os.environ.get("VERIF_TIER", "quick") == "thorough"
+_S = int(os.environ.get("VERIF_SEED", "0") or 0)
+# thorough tier: every section is repeated with three further families of random perturbations derived from VERIF_SEED
+OFFSETS = [0] + ([1000 + 7 * _S, 2000 + 7 * _S, 3000 + 7 * _S] if THOROUGH else [])
+OFF = 0
 
 
 def fail(section, what, **kw):
@@ -59,7 +65,7 @@ class Problem:
         self.n = len(E)
         self.nparam = nparam
         self.hermitian = hermitian
-        rng = np.random.default_rng(seed)
+        rng = np.random.default_rng(seed + OFF)
         self.terms = {}
         for k in range(nparam):
             m = rng.integers(-3, 4, size=(self.n, self.n)).astype(complex)
@@ -595,14 +601,17 @@ def section_projector():
 
 
 if __name__ == "__main__":
-    for name in sections:
-        fn = globals().get("section_" + name)
-        if fn is None:
-            continue
-        try:
-            fn()
-        except Exception:
-            import traceback
-            fail(name, "battery section crashed", error=traceback.format_exc()[-1200:])
+    for OFF in OFFSETS:
+        for name in sections:
+            fn = globals().get("section_" + name)
+            if fn is None:
+                continue
+            if OFF and name in ("nh_finding", "projector", "spectrum", "illposed"):
+                continue   # deterministic sections
+            try:
+                fn()
+            except Exception:
+                import traceback
+                fail(name, "battery section crashed", error=traceback.format_exc()[-1200:], seed_offset=OFF)
     print(json.dumps({"cases": cases, "failures": failures}))
     sys.exit(1 if failures else 0)
